@@ -193,6 +193,24 @@ struct Wrap {
     n: i32,
 }
 
+/// a host type whose Serialize impl converts its payload to a Value first (a nested conversion
+/// while an outer one may be running) and forwards that
+struct Forward<T>(T);
+impl<T: Serialize> Serialize for Forward<T> {
+    fn serialize<S: serde::Serializer>(&self, s: S) -> Result<S::Ok, S::Error> {
+        Value::from(Serde(&self.0)).serialize(s)
+    }
+}
+
+#[derive(Serialize)]
+struct Around<A: Serialize, B: Serialize> {
+    before: Value,
+    first: A,
+    v: Value,
+    last: B,
+    after: Value,
+}
+
 fn same_value(a: &Value, b: &Value) -> Result<(), String> {
     if a.kind() != b.kind() {
         return Err(format!("kind {:?} became {:?}", a.kind(), b.kind()));
@@ -245,9 +263,100 @@ fn same_value(a: &Value, b: &Value) -> Result<(), String> {
     Ok(())
 }
 
+struct FailingSer;
+impl Serialize for FailingSer {
+    fn serialize<S: serde::Serializer>(&self, _s: S) -> Result<S::Ok, S::Error> {
+        Err(serde::ser::Error::custom("nope"))
+    }
+}
+
+/// the conversion flag is thread-local state: every sequence of up to `depth` conversions out of a
+/// small alphabet (plain, nested, failing, nested-failing, panicking inside, JSON serialisation of a
+/// value outside of any conversion) must leave the state clean after every step — a special value
+/// converted afterwards comes back as itself and JSON output is plain data
+fn flag_histories(depth: usize, acc: &Acc) {
+    const OPS: usize = 6;
+    let special = || Value::from_safe_string("<s>".into());
+    let run_op = |op: usize| -> Result<(), String> {
+        match op {
+            0 => {
+                let v = Value::from(Serde(&Wrap { v: special(), n: 1 }));
+                if !v.get_attr("v").map(|x| x.is_safe()).unwrap_or(false) {
+                    return Err("plain conversion lost the safe string".into());
+                }
+            }
+            1 => {
+                let v = Value::from(Serde(&Around { before: special(), first: Forward(1), v: special(), last: Forward(Wrap { v: special(), n: 0 }), after: special() }));
+                for k in ["before", "v", "after"] {
+                    if !v.get_attr(k).map(|x| x.is_safe()).unwrap_or(false) {
+                        return Err(format!("field `{}` around a nested conversion lost the safe string", k));
+                    }
+                }
+                if !v.get_attr("last").and_then(|x| x.get_attr("v")).map(|x| x.is_safe()).unwrap_or(false) {
+                    return Err("value inside the nested conversion lost the safe string".into());
+                }
+            }
+            2 => {
+                let _ = Value::from(Serde(&Around { before: special(), first: FailingSer, v: special(), last: 1, after: special() }));
+            }
+            3 => {
+                let _ = Value::from(Serde(&Around { before: special(), first: Forward(FailingSer), v: special(), last: 1, after: special() }));
+            }
+            4 => {
+                struct Panicking;
+                impl Serialize for Panicking {
+                    fn serialize<S: serde::Serializer>(&self, _s: S) -> Result<S::Ok, S::Error> {
+                        panic!("host serializer panics")
+                    }
+                }
+                let _ = catch(|| Value::from(Serde(&Around { before: special(), first: Forward(1), v: special(), last: Panicking, after: special() })));
+            }
+            _ => {
+                let j = serde_json::to_string(&Value::from(vec![special(), Value::from(1)])).map_err(|e| e.to_string())?;
+                if j != "[\"<s>\",1]" {
+                    return Err(format!("JSON of a value outside any conversion is {}", j));
+                }
+            }
+        }
+        if minijinja::value::serializing_for_value() {
+            return Err("the conversion flag is still set after the operation returned".into());
+        }
+        Ok(())
+    };
+    let names = ["plain", "nested", "failing", "nested_failing", "panicking_after_nested", "json_outside"];
+    let mut total = 0u64;
+    for d in 1..=depth {
+        for code in 0..OPS.pow(d as u32) {
+            let mut seq = vec![];
+            let mut k = code;
+            for _ in 0..d {
+                seq.push(k % OPS);
+                k /= OPS;
+            }
+            total += 1;
+            acc.eval(1);
+            let r = catch(|| {
+                for (i, op) in seq.iter().enumerate() {
+                    run_op(*op).map_err(|e| format!("step {} ({}): {}", i, names[*op], e))?;
+                }
+                Ok::<(), String>(())
+            });
+            let hist: Vec<&str> = seq.iter().map(|o| names[*o]).collect();
+            match r {
+                Ok(Ok(())) => {
+                    acc.outcome("conversion history leaves the flag clean");
+                    acc.nontrivial(fnv(format!("hist{:?}", seq).as_bytes()));
+                }
+                Ok(Err(e)) => acc.fail(Failure { key: format!("embedded history last={}", hist.last().unwrap()), case: format!("{:?}", hist), detail: e, replay: json!({"kind": "history", "ops": seq}) }),
+                Err(p) => acc.fail(Failure { key: "embedded history panic".into(), case: format!("{:?}", hist), detail: p, replay: json!({"kind": "history", "ops": seq}) }),
+            }
+        }
+    }
+    acc.count("conversion_histories", total);
+}
+
 fn embedded_values(acc: &Acc) {
-    let mut alphabet = vals::v_edge(true);
-    alphabet.push(vals::Named { name: "invalid".into(), class: "invalid", value: Value::from(minijinja::Error::new(minijinja::ErrorKind::InvalidOperation, "boom")), is_nan: false });
+    let alphabet = vals::v_edge(true);
     for nv in &alphabet {
         let tv = &nv.value;
         let routes: Vec<(&str, Box<dyn Fn() -> Option<Value>>)> = vec![
@@ -263,6 +372,14 @@ fn embedded_values(acc: &Acc) {
             ("enum_newtype", Box::new(|| Value::from(Serde(&En::New(tv.clone()))).get_attr("New").ok())),
             ("direct", Box::new(|| Some(Value::from(Serde(tv))))),
             ("nested", Box::new(|| Value::from(Serde(&vec![Wrap { v: tv.clone(), n: 2 }])).get_item(&Value::from(0)).and_then(|x| x.get_attr("v")).ok())),
+            // nested conversions: a host Serialize impl that itself builds a Value
+            ("inside_nested_conversion", Box::new(|| Value::from(Serde(&Forward(Wrap { v: tv.clone(), n: 3 }))).get_attr("v").ok())),
+            ("inside_doubly_nested_conversion", Box::new(|| Value::from(Serde(&Forward(Forward(Wrap { v: tv.clone(), n: 3 })))).get_attr("v").ok())),
+            ("field_after_nested_conversion", Box::new(|| Value::from(Serde(&Around { before: Value::from(1), first: Forward(1), v: tv.clone(), last: 2, after: Value::from(2) })).get_attr("v").ok())),
+            ("field_before_nested_conversion", Box::new(|| Value::from(Serde(&Around { before: Value::from(1), first: 1, v: tv.clone(), last: Forward(2), after: Value::from(2) })).get_attr("v").ok())),
+            ("last_field_after_nested_conversion", Box::new(|| Value::from(Serde(&Around { before: Value::from(1), first: Forward(vec![1]), v: Value::from(0), last: Forward(Wrap { v: Value::from(1), n: 1 }), after: tv.clone() })).get_attr("after").ok())),
+            ("first_field_with_nested_conversions_later", Box::new(|| Value::from(Serde(&Around { before: tv.clone(), first: Forward(1), v: Value::from(0), last: Forward(2), after: Value::from(2) })).get_attr("before").ok())),
+            ("tuple_after_nested_conversion", Box::new(|| Value::from(Serde(&(Forward("x"), tv.clone()))).get_item(&Value::from(1)).ok())),
         ];
         for (route, f) in routes {
             acc.eval(1);
@@ -553,6 +670,7 @@ pub fn main(args: Args) -> i32 {
     let typed = acc.evaluations.load(std::sync::atomic::Ordering::Relaxed);
     acc.count("typed_values", typed);
     embedded_values(&acc);
+    flag_histories(args.tier.pick(3, 5), &acc);
     tojson_checks(args.tier, &acc);
     acc.sample(json!({"typed": "Field<Option<i64>> { a: Some(-9223372036854775808), b: None }", "law": "T::deserialize(Value::from(Serde(&x))) == x"}));
     acc.sample(json!({"embedded": "Wrap { v: Value::from_safe_string(\"<b>\"), n: 1 } -> .v must still be the safe string"}));
@@ -563,7 +681,7 @@ pub fn main(args: Args) -> i32 {
             level: "exploration",
             tier: args.tier,
             seed: args.seed,
-            rule: format!("typed round trip: 14 leaf types (bool, i8..i64, u8..u64, f32, f64, char, String, byte string) with per-leaf edge alphabets x 20 container shapes (Option, Vec, tuples, array, maps keyed by String/i64/u64/bool, newtype/tuple/field structs, all four enum variant shapes) and 14 depth-2 shapes for 5 representative leaves, plus unit-likes; embedded Values: every value of the edge alphabet (safe strings, undefined, none, 128-bit ints, NaN, bytes, lists, tuples, lazy iterables, maps, plain objects, invalid) through 8 embedding routes must come back as the very same value (kind, flags, object identity), and a failing serialisation must leave no thread-local residue; tojson/JSON auto-escape: all strings of length <= {} over a 16-character alphabet (quotes, backslash, slash, < > & ', controls, DEL, U+2028/9, non-BMP) bare, safe, as map key and in a list, all edge values bare / nested / as map key, through tojson in .txt and .html templates, tojson(indent) and JSON auto-escaping; output parsed by serde_json must equal the expected JSON value and tojson output must contain none of < > & '. distinct non-trivial = distinct (type,value) round trips + (value,route) pairs", args.tier.pick(3, 4)),
+            rule: format!("typed round trip: 14 leaf types (bool, i8..i64, u8..u64, f32, f64, char, String, byte string) with per-leaf edge alphabets x 20 container shapes (Option, Vec, tuples, array, maps keyed by String/i64/u64/bool, newtype/tuple/field structs, all four enum variant shapes) and 14 depth-2 shapes for 5 representative leaves, plus unit-likes; embedded Values: every value of the edge alphabet (safe strings, undefined, none, 128-bit ints, NaN, bytes, lists, tuples, lazy iterables, maps, plain objects, invalid) through 15 embedding routes (7 of them through host Serialize impls that run a nested conversion before, around or after the value) must come back as the very same value (kind, flags, object identity), and a failing serialisation must leave no thread-local residue; every history of up to {} conversions out of {{plain, nested, failing, nested failing, panicking after a nested one, JSON serialisation outside}} must leave the conversion flag clean after every step; tojson/JSON auto-escape: all strings of length <= {} over a 16-character alphabet (quotes, backslash, slash, < > & ', controls, DEL, U+2028/9, non-BMP) bare, safe, as map key and in a list, all edge values bare / nested / as map key, through tojson in .txt and .html templates, tojson(indent) and JSON auto-escaping; output parsed by serde_json must equal the expected JSON value and tojson output must contain none of < > & '. distinct non-trivial = distinct (type,value) round trips + (value,route) pairs", args.tier.pick(3, 5), args.tier.pick(3, 4)),
             exhaustive: true,
             bound: json!({"json_chars": JCHARS.iter().map(|c| format!("{:?}", c)).collect::<Vec<_>>()}),
             assumptions: vec![
